@@ -183,7 +183,7 @@ Section Ro.
       ps_next s' = ps_next s /\ (forall g, g <> ho -> ps_hget g (ps_hs s') = ps_hget g (ps_hs s)).
   Proof.
     intros s ho F pos [(n & pend & Hh) _]. unfold ps_step. rewrite Hh.
-    cbn [ph_open ph_mode ps_writable]. eexists. split; [reflexivity|].
+    cbn [psh_open psh_mode ps_writable]. eexists. split; [reflexivity|].
     split; [reflexivity|]. split; [reflexivity|].
     intros g G. cbn [ps_hs]. apply ps_hget_hput_other. exact G.
   Qed.
@@ -310,7 +310,7 @@ End Ro.
 
 (* ------------------------------------------------------------------ observe file *)
 Definition ps_rekey (k : bytes) (r : ps_obs) : ps_obs :=
-  mkObs k (ob_proto r) (ob_listen r) (ob_tuple r) (ob_pkt r) (ob_osc r).
+  mkObs k (pso_proto r) (pso_listen r) (pso_tuple r) (pso_pkt r) (pso_osc r).
 
 Section ObsLoad.
   Variable pol : Z -> Z -> Z.
@@ -364,7 +364,7 @@ Section ObsLoad.
   Lemma ps_rekey_wf : forall k r, ps_obs_wf la lt r -> len k = PS_KEY -> ps_obs_wf la lt (ps_rekey k r).
   Proof.
     intros k r (H1 & H2 & H3 & H4 & H5 & H6) Hk. unfold ps_obs_wf, ps_rekey.
-    cbn [ob_key ob_proto ob_listen ob_tuple ob_pkt ob_osc]. tauto.
+    cbn [pso_key pso_proto pso_listen pso_tuple pso_pkt pso_osc]. tauto.
   Qed.
 
   Hypothesis step_ok : ps_step_ok.
@@ -435,7 +435,7 @@ Section ObsLoad.
           as (s3 & pos3 & Hrun3 & Hr3 & Hd3 & Hw3 & Hfr3).
         rewrite (ps_pure_obs_write la lt) in Hrun3, Hd3, Hw3 by assumption.
         cbn [fst snd] in Hrun3, Hd3, Hw3.
-        change (mkObs k (ob_proto r) (ob_listen r) (ob_tuple r) (ob_pkt r) (ob_osc r))
+        change (mkObs k (pso_proto r) (pso_listen r) (pso_tuple r) (pso_pkt r) (pso_osc r))
           with (ps_rekey k r). rewrite Hrun3.
         assert (HV3 : forall i, ps_view s3 i = ps_view s2 i) by (apply Hw3).
         assert (Hwfh3 : ps_wfh s3).
